@@ -357,24 +357,25 @@ Definition apply_store (md : smode) (fd : bool) (m : msg) : msg :=
          end) (m_mark m).
 
 (* SELECT / EXAMINE after the old selection has been dropped *)
+Definition clear_recent (m : msg) : msg := mkMsg (m_uid m) false (m_deleted m) (m_mark m).
+
+Definition add_sel (s : N) (sl : sel) (hs : list (N * N * N)) (st : sys) : sys :=
+  mkSys (names st) (boxes st) (sess st ++ [(s, sl)]) (next_bid st) (next_inst st + 1)
+        (held st ++ hs) (cfg_base st) (cfg_shared st).
+
 Definition select_new (s nm : N) (ro : bool) (st : sys) : sys * out :=
   match find_box st nm with
   | None => (st, ONo)
   | Some (i, b) =>
     let k := next_inst st in
     if ro then
-      let sl := mkSel i nm true k [] (live_uids b) 0 in
-      (mkSys (names st) (boxes st) (sess st ++ [(s, sl)]) (next_bid st) (k + 1) (held st)
-             (cfg_base st) (cfg_shared st),
+      (add_sel s (mkSel i nm true k [] (live_uids b) 0) [] st,
        OSelect i true (nlen (b_msgs b)) (nlen (stored_recent b)) (b_max b + 1))
     else
+      (* claim_recent: every stored \Recent moves to this selection *)
       let claimed := stored_recent b in
-      let b' := mkBox (b_max b)
-                      (map (fun m => mkMsg (m_uid m) false (m_deleted m) (m_mark m)) (b_msgs b))
-                      (b_log b) in
-      let sl := mkSel i nm false k claimed (live_uids b) (nlen claimed) in
-      (mkSys (names st) (replace i b' (boxes st)) (sess st ++ [(s, sl)]) (next_bid st) (k + 1)
-             (held st ++ map (fun u => (i, u, k)) claimed) (cfg_base st) (cfg_shared st),
+      (add_sel s (mkSel i nm false k claimed (live_uids b) (nlen claimed))
+               (map (fun u => (i, u, k)) claimed) (map_msgs i clear_recent st),
        OSelect i false (nlen (b_msgs b)) (nlen claimed) (b_max b + 1))
   end.
 
